@@ -120,7 +120,7 @@ let run (line : string) : string =
       | "lcm" -> string_of_z (Z.lcm (zz 1) (zz 2))
       | "invert" -> show_res (function None -> "0" | Some r -> "1 " ^ string_of_z r) (mp_invert (zz 1) (zz 2))
       | "powm" -> show_res string_of_z (mp_powm (zz 1) (zz 2) (zz 3))
-      | "powui" -> string_of_z (Z.pow (zz 1) (zz 2))
+      | "powui" -> string_of_z (zpow (zz 1) (zz 2))
       | "root" -> show_res (fun (r, e) -> b01 e ^ " " ^ string_of_z r) (mp_root (zz 1) (zz 2))
       | "rootrem" -> show_res pair (mp_rootrem (zz 1) (zz 2))
       | "sqrt" -> show_res string_of_z (mp_sqrt (zz 1))
